@@ -592,7 +592,7 @@ LEVEL_TEXT = ("Coq theorems about a byte-level model of list_header and a transc
               "(list_header_total); memo cell invariant, write-once and completion under all SC interleavings of n tasks (memo_invariant, memo_write_once, "
               "memo_completes).  PARTIAL: lossless_partial (every reply of every history decodes to the identity body) is relative to the hypothesis that a "
               "decoder inverts the encoder; that hypothesis is validated, not proved, by decoding every reply of the run with the standard decoders.  "
-              "list_header_ows_v0_refuted: the grammar header on which kvarn 0.6.3's list_header was not the reference parse (repaired by fix: 2e4402a).")
+              "list_header_ows_v0_refuted: the grammar header on which kvarn 0.6.3's list_header was not the reference parse (repaired by fix: 7270dfd).")
 LEVEL_NOTE = ("Trusted: Coq kernel; extraction (sample re-checked in-kernel); hand transcription of the anchored code validated by the differential run on "
               "handle_cache / list_header / do_compress; the three decoder crates as the definition of 'standard decoder'; SC memory for the memo cell. "
               "No axioms. Encoder losslessness: validated per run, not proved.")
